@@ -354,10 +354,25 @@ async def scenario(world: WorldA) -> None:
                 sig = f"no-recovery:{st}" + ("" if spa_present else ":no-spa")
                 phases = pump_phases(man.deliveries, world.now())
                 if st != "ERROR_SPA_NOT_FOUND":
-                    for u in user_ops:
-                        for (k, a, b) in phases:
+                    # history signature: which pump phase overlapped which user operation, and how -- the operation began while the pump was
+                    # inside the phase ("reset-began-during"), or the pump started the phase while the operation was in progress, i.e.
+                    # suspended in the client's handler ("phase-started-during-reset"); for locate phases also whether it was the pump's own
+                    # first pass or the second pass inside async_connect
+                    n_loc = 0
+                    for (k, a, b) in phases:
+                        if k == "LOCATING":
+                            n_loc += 1
+                        for u in user_ops:
                             if u["t0"] <= b and u.get("t1", 1e18) >= a:
-                                sig = f"no-recovery:user-reset-during-{k}"
+                                how = "reset-began-during" if a <= u["t0"] else "phase-started-during-reset"
+                                which = ""
+                                if k == "LOCATING":
+                                    prev = [p for p in phases if p[2] <= a + 1e-9 and p[0] == "LOCATING" and abs(p[2] - a) < 1e-6]
+                                    which = ":second-pass" if prev else ":first-pass"
+                                cand = f"no-recovery:{how}-{k}{which}"
+                                # a phase the pump started while an operation was suspended explains everything that follows it
+                                if not sig.startswith("no-recovery:phase-started-during-reset"):
+                                    sig = cand
                 world.violate("C09", "no-recovery", f"network healthy since {heal_t:.2f}, still {st} after {B:.0f}s "
                               f"(facade={'set' if man.facade else None}, spa={'set' if spa_present else None}); user ops: "
                               f"{[(u['op'], round(u['t0'], 2), u['state0']) for u in user_ops]}", sig=sig)
